@@ -77,7 +77,7 @@ def _child_main(check, plan, wfd, gen=None):
             # traces (e.g. modified class-level defaults) in the long-lived worker
             plan = _plan_for(check, *gen)
         res = check.execute(plan, on_abort)
-        if gen is not None and (res.get('violations') or res.get('harness_error') or gen[2] < 3):
+        if gen is not None and (res.get('violations') or res.get('harness_error') or gen[2] < (8 if os.environ.get('VERIF_DIGEST_LOG') else 3)):
             res['plan'] = plan
     except BaseException:  # noqa: BLE001
         res = {'harness_error': 'EXCEPTION', 'detail': traceback.format_exc()[-6000:]}
@@ -326,6 +326,13 @@ def run_check(check_id: str, tier: str, base_seed: int, out=sys.stdout):
                 verdict = 'HARNESS:' + str(r_['harness_error']) if r_.get('harness_error') else \
                     ','.join(sorted({v['clause'] for v in r_.get('violations') or []})) or 'ok'
                 f.write(f"{rec['i']} {r_.get('digest')} {r_.get('steps')} {verdict}\n")
+        # the plans of the first runs, as replay files: replaying them in a fresh process must give the same digest
+        pdir = os.environ['VERIF_DIGEST_LOG'] + '.plans'
+        os.makedirs(pdir, exist_ok=True)
+        for rec in recs:
+            if 'plan' in rec and rec['i'] < 8 and not rec['res'].get('harness_error'):
+                _write_json(os.path.join(pdir, f"{rec['i']}.json"),
+                            {'check': check_id, 'plan': rec['plan'], 'digest': rec['res'].get('digest'), 'clause': None})
     digests = set()
     nontrivial_digests = set()
     fault_counts, probes, strategies = {}, {}, {}
@@ -560,5 +567,8 @@ def replay(check_id, path, out=sys.stdout):
         print(f'REPLAY-NOT-REPRODUCED property={check_id} expected clause {exp_clause}; got {v[:1]} '
               f'(the code under test may have changed)', file=out)
         return 0
+    if rp.get('digest') is not None and not v and rp.get('digest') != res.get('digest'):
+        print(f'REPLAY-DIVERGED expected digest {rp.get("digest")} got {res.get("digest")}', file=out)
+        return 2
     print(f'{check_id} replay: no violation; digest={res.get("digest")}', file=out)
     return 0
